@@ -54,7 +54,7 @@ PROP = dict(
                    "op:FoldParallel", "op:FoldParallelPool", "chunk:odd_start_odd_len", "chunk:odd_start_even_len",
                    "chunk:even_start_odd_len", "op:PoolClone",
                    "reader:plain_wrapper", "reader:one_byte", "reader:data_err", "reader:bufio.Reader", "stream:two_objects",
-                   "stream:foreign_bytes_between", "stream:truncated", "writer:failing_partial=true", "F12h"],
+                   "stream:foreign_bytes_between", "stream:truncated", "writer:failing_partial=true"],
     jobs=[
         dict(name="regress", pkg="c20", run="^TestC20_(Regress.*|RefSelf)$", rapid=False),
         dict(name="exhaustive", pkg="c20", run="^TestC20_Exhaustive$", rapid=False, shards=_curves, seeds=(3, 8),
